@@ -1,4 +1,5 @@
 import AtreeProofs.Map.ExportTree
+import AtreeProofs.Map.InsertOrder
 import AtreeProofs.Map.Example
 /-
   C12 — the SHAPE of collision groups, as step theorems (audit a2/F7).
@@ -88,6 +89,31 @@ theorem no_reinline_on_shrink (cfg : MCfg) (m m' : OMap r) (k : MKey) (c c' : Ct
     (hs : m.remove cfg k c = .ok (rk, rv, m', c')) : RemoveElemsRel m.elems0 m'.elems0 :=
   OMap.remove_elems0 cfg m m' k c c' rk rv hs
 
+/-- FULL COLLISIONS KEEP THEIR INSERTION ORDER.  When `Set` returns no previous value (the key is new),
+    the iteration order afterwards is the order before with the new pair inserted BEHIND every pair that
+    has the same digest vector as the new key (`NewLast`): together with `order_canonical` (ascending
+    digest vectors) this fixes the position of the new pair completely – after the last fully colliding
+    key, before the first larger digest vector. -/
+theorem full_collisions_keep_insertion_order (T : Nat) (hT : legalThreshold T = true) (D : DigestFn (r + 1))
+    (cfg : MCfg) (m m' : OMap r) (hcfg : CfgOk cfg T m) (h : MapInv T D m) (k : MKey) (hk : KeyOk T (r + 1) D k)
+    (v : Elem) (c c' : Ctx) (hs : m.set cfg k v c = .ok (none, m', c')) : NewLast m.toList m'.toList k :=
+  OMap.set_newLast hT hcfg h hk hs
+
+/-- the same, restricted to the keys that collide with `k` on every level: the new key is APPENDED -/
+theorem new_colliding_key_is_appended (T : Nat) (hT : legalThreshold T = true) (D : DigestFn (r + 1))
+    (cfg : MCfg) (m m' : OMap r) (hcfg : CfgOk cfg T m) (h : MapInv T D m) (k : MKey) (hk : KeyOk T (r + 1) D k)
+    (v : Elem) (c c' : Ctx) (hs : m.set cfg k v c = .ok (none, m', c')) :
+    ∃ sv, m'.toList.filter (fun p => p.1.digs == k.digs) = m.toList.filter (fun p => p.1.digs == k.digs) ++ [(k, sv)] := by
+  obtain ⟨A, B, sv, hl, hl', hB⟩ := full_collisions_keep_insertion_order T hT D cfg m m' hcfg h k hk v c c' hs
+  refine ⟨sv, ?_⟩
+  have hBf : B.filter (fun p => p.1.digs == k.digs) = [] := by
+    rw [List.filter_eq_nil_iff]
+    intro p hp
+    simp only [beq_iff_eq]
+    exact hB p hp
+  rw [hl, hl']
+  simp [List.filter_append, List.filter_cons, hBf]
+
 /-! ### Non-vacuity
 
 `MapExample` (two digest levels, T = 256): after seven insertions the element under first-level
@@ -119,6 +145,20 @@ example (old : Option Elem) (m' : OMap 1) (c' : Ctx)
 /-- and a removal from the external group of `MapExample.run` keeps it external although it shrinks -/
 example : kinds (stepRemove cfg2 MapExample.run (key 314)).1 =
     ["single", "inline", "inline", "external", "inline", "inline", "single", "single", "single"] := by decide
+
+/-- the keys 311 … 314 of `MapExample.run` collide on both levels; a fifth such key (with a collision
+    limit that admits it) is appended behind them -/
+def cfg255 : MCfg := { cfg2 with climit := 255 }
+
+example : (MapExample.run.1.toList.filter (fun p => p.1.digs == (key 315).digs)).map (fun p => p.1.pay) =
+    [311, 312, 313, 314] := by decide
+
+example : ((stepSet cfg255 MapExample.run (key 315) (val 0)).1.toList.filter
+    (fun p => p.1.digs == (key 315).digs)).map (fun p => p.1.pay) = [311, 312, 313, 314, 315] := by decide
+
+example (m' : OMap 1) (c' : Ctx) (hs : MapExample.run.1.set cfg255 (key 315) (val 0) MapExample.run.2 = .ok (none, m', c')) :=
+  new_colliding_key_is_appended 256 legal256 D2 cfg255 MapExample.run.1 m' run_good.cfgok run_good.inv (key 315) (key_ok _)
+    (val 0) MapExample.run.2 c' hs
 
 end NonVacuity
 
